@@ -19,6 +19,7 @@ class EntryPolicy(Policy):
     def __init__(self, prog, ctx, len_rep, outcomes):
         Policy.__init__(self)
         self.allow_sub = True
+        self.allow_len_diff = True
         self.prog = prog
         self.ctx = ctx
         self.len_rep = len_rep
@@ -172,14 +173,18 @@ class NumberPolicy(Policy):
             self.raw = Tok("T", "digits", "", dom="text")
             return ok(self.raw)
         if k == "try_map":
+            c0, path0 = interp.deref(inp)
+            start = interp.read(c0, path0)
             r = self.apply(interp, p.args[0], inp)
             if not (isinstance(r, Adt) and r.variant == 0):
                 return r
             v = interp.call_value(p.extra, [r.fields[0]])
             if isinstance(v, Adt) and v.name == "std::result::Result" and v.variant == 0:
                 return v
-            # winnow: ErrMode::from_external_error -> Backtrack(E::from_external_error(..)); the crate's impl returns e
-            return err(Adt(ERRMODE, self.prog.variant_index(ERRMODE, "Backtrack"), (v.fields[0],)))
+            # winnow's TryMap: the stream is reset to where the inner parser started, then
+            # ErrMode::Backtrack(E::from_external_error(input, ErrorKind::Verify, e)) with the crate's impl
+            interp.write(c0, path0, start)
+            return gram.convert_external_error(interp, inp, v.fields[0])
         if k == "map":
             r = self.apply(interp, p.args[0], inp)
             if isinstance(r, Adt) and r.variant == 0:
